@@ -32,7 +32,9 @@ def runMonitor (pid : String) (c : MonCtx) (ls : List Label) : Option (Option Na
   | "C12" => some (ff (monC12 c.cfg.cap) ls)
   | "C13" => some (ff (monC13 c) ls)
   | "C14" => some (ff (monC14 c) ls)
-  | "C15" => some (ff (monC15 c) ls)
+  | "C15" => some (match ff (monC15 c) ls with
+      | some k => some k
+      | none => ff (monC15iw c) ls)
   | "C17" => some (ff (monC17 c) ls)
   | _ => none
 
